@@ -1,1 +1,29 @@
-fn main(){ println!("hi"); }
+#![recursion_limit = "512"]
+#![allow(dead_code, unused_assignments)]
+//! simcheck — deterministic simulation of the expression engine with fault injection.
+//!
+//!   simcheck <PROPERTY>            run the check (VERIF_TIER=quick|thorough, VERIF_SEED=<int>)
+//!   simcheck replay <file>         re-execute a replay file in this (fresh) process
+//!   simcheck determinism [IDS..]   run seeds twice, in separate processes, 1 and N workers, and diff
+//!   simcheck show <PROPERTY> <idx> print the case generated for an index
+//!
+//! exit 0 = held, 1 = violation (line `VIOLATION property=<id> replay=<path>`), 2 = harness error
+
+mod case;
+mod driver;
+mod expr;
+mod lin;
+mod model;
+mod oracle;
+mod prng;
+mod prop;
+mod props;
+mod sched;
+mod shrink;
+mod simrt;
+
+fn main() {
+    let args: Vec<String> = std::env::args().skip(1).collect();
+    let code = driver::main(&args);
+    std::process::exit(code);
+}
